@@ -300,6 +300,16 @@ func adversaryDoc(family string, n int) string {
 		for i := 0; i < n; i++ {
 			fmt.Fprintf(&b, " fragment A%d on Query { l { ...A%d } i } fragment B%d on Query { l { ...B%d } i }", i, (i+1)%n, i, (i+1)%n)
 		}
+	case "twin-chains-exclusive":
+		// two chains of fragments spread side by side; at every level both select the same response name under
+		// two object type conditions of one interface, so each pair of the next level is looked at as exclusive
+		// and as shared in turn (whatever is remembered about a pair must answer both)
+		b.WriteString("{ pet { ...F0 ...G0 } }")
+		for i := 0; i < n; i++ {
+			fmt.Fprintf(&b, " fragment F%d on Pet { ... on Dog { a: owner { pet { ...F%d } } } ... on Cat { a: owner { pet { ...F%d } } } }", i, i+1, i+1)
+			fmt.Fprintf(&b, " fragment G%d on Pet { ... on Dog { a: owner { pet { ...G%d } } } ... on Cat { a: owner { pet { ...G%d } } } }", i, i+1, i+1)
+		}
+		fmt.Fprintf(&b, " fragment F%d on Pet { __typename } fragment G%d on Pet { __typename }", n, n)
 	case "self-cycle":
 		b.WriteString("{ ...A } fragment A on Query { i ...A q { ...A } }" + rep(" ", n))
 	case "deep-alias":
@@ -456,12 +466,12 @@ func adversarySchema(family string, n int) string {
 var adversarySchemaFamilies = []string{"iface-chain", "iface-cycle-behind-type", "iface-cycle-declared", "iface-self", "input-cycle-nonnull", "input-cycle-default", "deep-list-type", "deep-default-object",
 	"union-many", "directive-cycle", "extension-chain", "extension-of-missing"}
 
-var adversaryFamilies = []string{"fanout-introspection", "fanout-field", "fanout-top", "fanout-subscription", "fanout-fields", "cycle-through-fields", "mutual-overlap", "exclusive-then-shared", "shared-then-exclusive", "self-cycle",
+var adversaryFamilies = []string{"fanout-introspection", "fanout-field", "fanout-top", "fanout-subscription", "fanout-fields", "cycle-through-fields", "mutual-overlap", "exclusive-then-shared", "shared-then-exclusive", "twin-chains-exclusive", "self-cycle",
 	"deep-alias", "wide-same-name", "wide-conflicts", "many-spreads-same", "many-fragments-together", "nested-inline", "undefined-everywhere",
 	"deep-object-args-equal", "deep-object-args-differ", "deep-object-args-reordered", "deep-list-args-equal", "deep-object-lists-equal", "deep-default-value", "wide-object-args", "many-unknown-args", "invalid-utf8-in-literals"}
 
 func checkC02(c *core.Ctx) {
-	c.Rule = "cases are (a) LoadSchema on generated valid and faulty type systems, hand-written corner cases and grammar-directed type-blind SDL; (b) Validate on (schema, document) pairs: typed valid documents, documents with injected faults, grammar-directed type-blind documents over the schema's vocabulary (unknown types, undefined and unused variables, variables inside input objects inside unreachable fragments, unused and mutually recursive fragments, wrong value shapes, every directive everywhere); (c) twenty-six adversarial document families and twelve adversarial type-system families (interface chains and cycles reached from a type that sorts first, input-object cycles through non-null fields and defaults, deep list types and default values, wide unions, directive cycles, long extension chains, extensions of missing types) at four sizes (fragment fan-out under introspection / fields / top level / subscriptions, cycles through fields, fragments spreading each other while overlapping, deep aliases, wide selection sets with one response name). Everything runs in a child process: a crash or 20 s of silence is attributed to its input. Returned cases carry the hook-H2 recursion step counters and Total2_Trace checks them against polynomial bounds in the document size. Non-trivial = documents with at least one fragment or one error; distinct by texts"
+	c.Rule = "cases are (a) LoadSchema on generated valid and faulty type systems, hand-written corner cases and grammar-directed type-blind SDL; (b) Validate on (schema, document) pairs: typed valid documents, documents with injected faults, grammar-directed type-blind documents over the schema's vocabulary (unknown types, undefined and unused variables, variables inside input objects inside unreachable fragments, unused and mutually recursive fragments, wrong value shapes, every directive everywhere); (c) twenty-seven adversarial document families and twelve adversarial type-system families (interface chains and cycles reached from a type that sorts first, input-object cycles through non-null fields and defaults, deep list types and default values, wide unions, directive cycles, long extension chains, extensions of missing types) at four sizes (fragment fan-out under introspection / fields / top level / subscriptions, cycles through fields, fragments spreading each other while overlapping, deep aliases, wide selection sets with one response name). Everything runs in a child process: a crash or 20 s of silence is attributed to its input. Returned cases carry the hook-H2 recursion step counters and Total2_Trace checks them against polynomial bounds in the document size. Non-trivial = documents with at least one fragment or one error; distinct by texts"
 	c.Assumptions = []string{
 		"termination / absence of panics is an observation of the Go runtime (child process + inactivity watchdog); the polynomial bound is stated on deterministic step counters (hook H2) with a hard budget of 30 million steps per site, not on seconds",
 		"FragTraversal.tla: the Global discipline is linear on every graph of 3 fragments with at most two spreads each; OnPath is exponential on the fan-out family (model-checked)",
